@@ -411,7 +411,57 @@ fn histories(out: &mut Out, rng: &mut Rng, n: u64) {
     }
 }
 
+/// `./check C03 --replay FILE`
+fn replay(args: &Args, path: &str) {
+    std::panic::set_hook(Box::new(|i| eprintln!("[panic] {i}")));
+    let mut out = Out::new(&args.out);
+    let j: serde_json::Value = serde_json::from_str(&std::fs::read_to_string(path).or_else(|_| std::fs::read_to_string(format!("../{path}"))).expect("replay file")).expect("json");
+    let fi = if j.get("failing_input").is_some() { j["failing_input"].clone() } else { j.clone() };
+    let us = |v: &serde_json::Value| -> u128 { v.as_str().map(|s| s.parse().unwrap()).or(v.as_u64().map(|x| x as u128)).unwrap_or(0) };
+    let u6 = |v: &serde_json::Value| -> u64 { v.as_u64().or(v.as_str().map(|s| s.parse().unwrap())).unwrap_or(0) };
+    let mut rng = Rng::new(1);
+    match fi["kind"].as_str().unwrap_or("") {
+        "pure_stableswap" => {
+            let amp = u6(&fi["amp"]);
+            let dp = (u6(&fi["decimals"][0]) as u8, u6(&fi["decimals"][1]) as u8);
+            let r = [us(&fi["offer_pool"]), us(&fi["ask_pool"])];
+            let x = us(&fi["offer"]);
+            let f = (us(&fi["fees_protocol_swap_burn"][0]), us(&fi["fees_protocol_swap_burn"][1]), us(&fi["fees_protocol_swap_burn"][2]));
+            let s = impl_swap(r[0], r[1], x, f, amp, dp);
+            println!("compute_swap -> {}", match &s { Outcome::Ok(v) => format!("return {} spread {} swap_fee {} protocol_fee {} burn_fee {}", v.ret, v.spread, v.sf, v.pf, v.bf), Outcome::Err(_) => "Err".into(), Outcome::Panic(m) => format!("panic: {m}") });
+            monitor_swap(&mut out, r[0], r[1], x, f, amp, dp, &s, &fi);
+            if let Some(d) = fi.get("deposit") {
+                let dep = [us(&d[0]), us(&d[1])];
+                let supply = us(&fi["lp_supply"]);
+                if let Outcome::Ok(mv) = impl_mint(amp, dep, r, supply) { println!("mint -> {mv}"); monitor_mint(&mut out, amp, dep, r, supply, mv, dp, &fi); }
+            }
+        }
+        "pair_history" => {
+            let uidx = |v: &serde_json::Value| -> usize { USERS4.iter().position(|n| Some(*n) == v.as_str()).unwrap_or(0) };
+            let ops: Vec<Op> = fi["ops"].as_array().unwrap().iter().map(|o| match o["op"].as_str().unwrap() {
+                "provide" => Op::Provide { u: uidx(&o["user"]), d: [us(&o["amounts"][0]), us(&o["amounts"][1])] },
+                "withdraw" => Op::Withdraw { u: uidx(&o["user"]), amount: us(&o["lp"]) },
+                "swap" => Op::Swap { u: uidx(&o["user"]), i: u6(&o["offer_index"]) as usize, x: us(&o["offer"]), ms: if o["max_spread_atomics"].is_null() { None } else { Some(us(&o["max_spread_atomics"])) } },
+                "collect" => Op::Collect,
+                _ => Op::Donate { i: u6(&o["index"]) as usize, x: us(&o["amount"]) },
+            }).collect();
+            let f = &fi["fees_protocol_swap_burn"];
+            let k = &fi["asset_kinds_cw20"];
+            let h = History { amp: u6(&fi["amp"]), dp: (u6(&fi["decimals"][0]) as u8, u6(&fi["decimals"][1]) as u8), fees: (us(&f[0]), us(&f[1]), us(&f[2])),
+                              kinds: [k[0].as_bool().unwrap_or(false), k[1].as_bool().unwrap_or(false)], fixed: Some(ops), len: 0 };
+            run_history(&mut out, &mut rng, &h);
+        }
+        other => { println!("unknown replay kind {other:?}"); std::process::exit(2); }
+    }
+    for h in &out.known_hits { println!("KNOWN-FINDING (class {}): {}", h["class"].as_str().unwrap_or(""), h["what"].as_str().unwrap_or("")); }
+    let fails = out.monitor_failures.clone();
+    for f in &fails { println!("PROPERTY VIOLATED on the implementation: {}", f["what"].as_str().unwrap_or("")); }
+    out.finish();
+    if fails.is_empty() { println!("replay: no property violation on this input"); std::process::exit(0); } else { std::process::exit(1); }
+}
+
 pub fn run(args: &Args) {
+    if let Some(p) = &args.replay { replay(args, p); return; }
     let mut out = Out::new(&args.out);
     out.rule = "pure: non-trivial = compute_swap returned Ok with proceeds > 0, distinct by full input; histories: non-trivial = at least 3 different successful operation kinds, distinct by op list".into();
     let mut rng = Rng::new(hash64(&[args.seed as u128, 0xC03]));
